@@ -68,6 +68,24 @@ def cases(rng, tier, shard, nshards, phase):
     if phase.startswith("search"):
         total *= 2
     for _ in range(total // nshards):
+        if rng.random() < 0.04:
+            # totals that differ by one vote far above 2**53 - unequal, but equal as floats - with the LOWER total
+            # listed first: the top m are still the highest exact totals, and no tie exists
+            n = rng.randint(2, 5)
+            rule = rng.choice(["Approval", "Rating", "BlocPlurality"])
+            cfg = {"m": rng.randint(1, n - 1), "tiebreak": None}
+            if rule == "Rating":
+                cfg["L"] = "1"
+            if rule == "BlocPlurality":
+                cfg["k"] = rat(n)
+            bs = [{"r": [], "w": str(10 ** 16), "s": [[c, "1"] for c in range(n)]}]
+            for c in range(n):
+                bs.append({"r": [], "w": str(c + 1), "s": [[c, "1"]]})      # candidate c totals 10**16 + c + 1
+            rng.shuffle(bs)
+            yield {"rule": rule, "cfg": cfg, "spec": {"names": gen.gen_names(rng, n), "b": bs, "c": list(range(n))},
+                   "viol": None, "rs": rng.randint(0, 10 ** 9), "near_equal_huge": True, "L": "1",
+                   "k": rat(n) if rule == "BlocPlurality" else None}
+            continue
         rule = rng.choice(CLASSES)
         n = rng.randint(1, 6)
         cfg, L, k = params(rng, rule, n)
